@@ -50,6 +50,7 @@ type Contract struct {
 	Props    []string
 	Clauses  []*Clause
 	NoPanic  bool
+	Prune    bool // branch feasibility is checked with the solver while executing the function's own body
 	Modular  bool
 	Trusted  bool
 	IsLemma  bool
@@ -458,6 +459,8 @@ func parseContractFile(data, file, pkgPath string) ([]*Contract, error) {
 				}
 			case "nopanic":
 				cur.NoPanic = true
+			case "prune":
+				cur.Prune = true
 			case "modular":
 				cur.Modular = true
 			case "pure":
